@@ -453,7 +453,16 @@ func (e *engine) runScenario(sc Scenario) (res result) {
 		})
 		_ = os.RemoveAll(sb)
 	}()
-	args, err := materialize(f, sb, st.Target, sc.Clean)
+	// the target as spelled on the command line, and the same place relative to the working directory
+	targetArg := strings.ReplaceAll(st.Target, "$SB", sb)
+	relTarget := targetArg
+	if filepath.IsAbs(targetArg) {
+		if rel, err := filepath.Rel(filepath.Join(sb, "work"), targetArg); err == nil {
+			relTarget = rel
+		}
+	}
+	relTarget = filepath.Clean(relTarget)
+	args, err := materialize(f, sb, targetArg, sc.Clean)
 	if err != nil {
 		res.ToolError = err.Error()
 		return
@@ -462,7 +471,7 @@ func (e *engine) runScenario(sc Scenario) (res result) {
 	if len(prev) == 0 {
 		prev = small.Files
 	}
-	b := &builder{sb: sb, target: st.Target, prevGen: prev, stale: large.Files, rng: rand.New(rand.NewSource(sc.TreeSeed))}
+	b := &builder{sb: sb, target: relTarget, prevGen: prev, stale: large.Files, rng: rand.New(rand.NewSource(sc.TreeSeed))}
 	st.Build(b)
 	if b.err != nil {
 		res.ToolError = "state builder: " + b.err.Error()
@@ -521,7 +530,7 @@ func (e *engine) runScenario(sc Scenario) (res result) {
 		return
 	}
 
-	targetRel := filepath.ToSlash(filepath.Join("work", st.Target))
+	targetRel := filepath.ToSlash(filepath.Join("work", relTarget))
 	// what this fixture does with the tree under test, from its reference run
 	fails := ref.Exit != 0 && len(ref.Files) == 0
 	if f.Fails && !fails {
